@@ -112,6 +112,96 @@ def run_many(params, known):
     return dict(name=params['name'], evaluations=count, nontrivial_keys=[], violations=violations, known=[], samples=[])
 
 
+def run_narrow_path(params, known):
+    """Back-pressure: each direction of the connection holds at most `pipe` octets in flight, so every write is
+    short and the socket is not writable again until the peer has read.  Bundles one way and both ways at once
+    (up to 300 octets against pipes of 1 ... 64 octets and read chunks of 9 and 10240 octets), under four
+    schedules (round robin starting with either side; either side running four callbacks for each one of the other).  Everything queued is
+    delivered intact and reported successful; nobody is left waiting for the other."""
+    import itertools
+    from ..tcpcl_world import PATH, IFACE
+    from ..world import Violation
+    prop = params.get('prop', PROP)
+    violations = []
+    kinds = set()
+    keys = set()
+    count = 0
+
+    def viol(kind, detail, case):
+        if kind in kinds:
+            return
+        kinds.add(kind)
+        v = Violation(prop, 'delivery', kind, dict(), '%r: %s' % (case, detail)).as_dict()
+        v['case'] = case
+        violations.append(v)
+    loads = {'A5': ([5], []), 'A5|B5': ([5], [5]), 'A40|B40': ([40], [40]), 'A300|B300': ([300], [300]), 'A9+A1|B30': ([9, 1], [30])}
+    for (lname, pipe, chunk, seg, policy) in itertools.product(sorted(loads), (1, 2, 3, 7, 16, 64), (9, 10240), (4, 64),
+                                                               ('rr-A', 'rr-B', 'burst-A', 'burst-B')):
+        (la, lb) = loads[lname]
+        if max(la + lb) >= 300 and (seg == 4 or pipe < 3):
+            continue
+        count += 1
+        case = dict(load=lname, pipe=pipe, read_chunk=chunk, segment_size=seg, schedule=policy)
+        da = [hexn(n, 0x10 * (k + 1)) for (k, n) in enumerate(la)]
+        db = [hexn(n, 0x90 + 0x10 * k) for (k, n) in enumerate(lb)]
+        w = TcpclWorld(dict(scripts={'A': [('send', d) for d in da], 'B': [('send', d) for d in db]}, auto_pop=False, pipe=pipe, chunk=chunk,
+                            seg_mru={'A': seg, 'B': seg}, tx_init={'A': seg, 'B': seg}))
+        sig = _Signals()
+        esc = EscapeMonitor(prop)
+        w.monitors = [sig, esc]
+        order = ['A', 'B'] if policy.endswith('A') else ['B', 'A']
+        favoured = order[0]
+        burst = 0
+        steps = 0
+        found = None
+        while steps < 60000:
+            steps += 1
+            evs = w.enabled_events()
+            user = [e for e in evs if e[0] == 'user']
+            runs = {e[1]: e for e in evs if e[0] == 'run'}
+            pick = None
+            for e in user:
+                if w.handler(e[1]).get_session_state() == 'established':
+                    pick = e
+                    break
+            if pick is None:
+                for name in order:
+                    if name in runs:
+                        pick = runs[name]
+                        # round robin; 'burst': the favoured side runs up to four callbacks for each one of the other
+                        # (a strict priority would starve the other side as soon as a callback polls)
+                        burst = burst + 1 if name == favoured else 0
+                        if policy.startswith('rr') or name != favoured or burst >= 4:
+                            order = [n for n in order if n != name] + [name]
+                            burst = 0
+                        break
+            if pick is None:
+                break
+            (vs, _e) = w.apply(pick)
+            if vs:
+                found = ('escaped-exception', vs[0].detail[:300])
+                break
+        else:
+            found = ('run-does-not-end', 'still busy after %d steps' % steps)
+        keys.add('%s/%d/%d/%d/%s' % (lname, pipe, chunk, seg, policy))
+        if found:
+            viol(found[0], found[1], case)
+            continue
+        for (side, peer, datas) in (('A', 'B', da), ('B', 'A', db)):
+            rq = w.bus_call(w.procs[peer], PATH, 'recv_bundle_get_queue', iface=IFACE)
+            got = []
+            for bid in (rq[1] if rq[0] == 'ok' else []):
+                res = w.bus_call(w.procs[peer], PATH, 'recv_bundle_pop_data', str(bid), iface=IFACE)
+                got.append(bytes(res[1]).hex() if res[0] == 'ok' else repr(res))
+            if got != datas:
+                viol('queued-bundle-never-delivered', 'sent by %s: %r octets each, the peer holds %r (states %s / %s)'
+                     % (side, [len(d) // 2 for d in datas], [len(g) // 2 for g in got],
+                        w.handler('A').get_session_state(), w.handler('B').get_session_state()), case)
+            elif len(sig.send_finished[side]) != len(datas):
+                viol('success-signals-incomplete', '%s was told of %r' % (side, sig.send_finished[side]), case)
+    return dict(name=params['name'], evaluations=count, nontrivial_keys=sorted(keys), violations=violations, known=[], samples=[])
+
+
 def _scen(name, scripts, dev_bound=0, weight=1, **over):
     params = dict(scripts=scripts, devs=DEVS if dev_bound else ())
     params.update(over)
@@ -159,6 +249,8 @@ def scenarios(tier):
     out.append(_scen('chunk5-A3', {'A': [s3], 'B': []}, dev_bound=0, chunk=5, weight=40))
     # the same with traffic both ways: acknowledgements are generated while a segment is half written
     out.append(_scen('chunk9-A1|B1', {'A': [s1], 'B': [s1b]}, dev_bound=0, chunk=9, weight=60))
+    # a narrow path: each direction holds only a few octets in flight, every write is short and blocks until the peer has read
+    out.append(dict(name='narrow-path', kind='enum', runner='run_narrow_path', params=dict(name='narrow-path'), weight=30))
     out.append(dict(name='many-transfers', kind='enum', runner='run_many', params=dict(name='many-transfers'), weight=30))
     # delivery into a file (recv_bundle_pop_file) and sending from one: the octets are the bundle's, nothing else
     out.append(dict(name='file-api', kind='enum', runner='run_file_api', params=dict(name='file-api', prop=PROP), weight=5))
